@@ -615,7 +615,22 @@ func (w world) RunCase(t *tape.Tape, st *super.Stats) *super.Violation {
 		for i := 0; i < n; i++ {
 			s := base
 			if i == 0 || t.Coin() {
-				if len(s) > 0 {
+				if baseRoot != nil && t.Coin() {
+					// the same module with whole statements damaged (wrong order, header or revision statements
+					// swapped or dropped, a bad argument): it fails in a statement CHECK, not in the lexer
+					d := baseRoot
+					for k := 1 + t.Draw(2); k > 0; k-- {
+						d, _ = d.DamageStructure(t)
+					}
+					if t.Rare(3) && len(d.Kids) >= 2 {
+						// header statements at the end / two top-level statements swapped
+						i, j := t.Draw(len(d.Kids)), t.Draw(len(d.Kids))
+						d = d.Clone()
+						d.Kids[i], d.Kids[j] = d.Kids[j], d.Kids[i]
+					}
+					s = d.Text()
+					inc("reach:interner_sequence_member_with_statement_damage")
+				} else if len(s) > 0 {
 					s = s[:t.Draw(len(s))]
 				}
 			}
@@ -625,7 +640,7 @@ func (w world) RunCase(t *tape.Tape, st *super.Stats) *super.Violation {
 			}
 			ins = append(ins, input{nm, s})
 		}
-		if len(ins) >= 2 && t.Rare(3) {
+		if len(ins) >= 2 && t.Coin() {
 			// the sequence ends with the complete, undamaged text once more (after its damaged versions went through the same interners)
 			ins = append(ins, input{ins[len(ins)-1].name, base})
 		}
